@@ -46,6 +46,20 @@ def cases():
         out.append((f'large-community {a}:{b}:{c}', ok, lambda at, a=a, b=b, c=c: at.get(32) == _be(a, 4) + _be(b, 4) + _be(c, 4)))
     for asn in (1, 65535, 65536, 4200000001, 4294967295, 4294967296):
         out.append((f'as-path [ {asn} ]', asn <= 0xFFFFFFFF, ('as-path', asn)))
+    # segments: sequence [ ], set ( ); RFC 6793 4.2.2: towards a 2-byte peer every AS above 65535 becomes AS_TRANS in
+    # AS_PATH and AS4_PATH carries the path as written whenever there is one, in whatever segment it sits
+    big, big2 = 4200000002, 4200000003
+    for segs in (
+        [(2, [64500, 64501])],
+        [(2, [64500, big])],
+        [(2, [64500, 64501]), (1, [big, big2])],
+        [(1, [65536])],
+        [(1, [64500, 64501])],
+        [(2, [big]), (1, [64500])],
+        [(2, [64500]), (1, [64501, big]), (2, [big2])],
+    ):
+        text = ' '.join(('[ %s ]' if t == 2 else '( %s )') % ' '.join(str(a) for a in asns) for t, asns in segs)
+        out.append((f'as-path {text}', True, ('as-path-segments', segs)))
     out.append(('origin igp', True, lambda a: a.get(1) == b'\x00'))
     out.append(('origin bogus', False, None))
     out.append(('originator-id 1.2.3.4', True, lambda a: a.get(9) == socket.inet_aton('1.2.3.4')))
@@ -112,6 +126,26 @@ def one_case(fragment, should_accept, checker):
                 got4 = [int.from_bytes(seg4[2 + i * 4 : 6 + i * 4], 'big') for i in range(seg4[1])] if seg4 else []
                 if asn not in got4:
                     return {'what': f'a 4-byte AS number sent to a 2-byte peer without AS4_PATH carrying {asn} (got {got4})', 'input': inp}
+        elif isinstance(checker, tuple) and checker[0] == 'as-path-segments':
+            segs = checker[1]
+            asn4 = kind.endswith('4')
+
+            def read(raw, width):
+                got, i = [], 0
+                while i + 2 <= len(raw):
+                    t, n = raw[i], raw[i + 1]
+                    got.append((t, [int.from_bytes(raw[i + 2 + k * width : i + 2 + (k + 1) * width], 'big') for k in range(n)]))
+                    i += 2 + n * width
+                return got
+
+            got = read(attrs.get(2, b''), 4 if asn4 else 2)
+            want = [(t, [a if (asn4 or a < 65536) else 23456 for a in asns]) for t, asns in segs]
+            if got != want:
+                return {'what': f'as-path written {segs} is sent as AS_PATH {got} on a {kind} session (expected {want})', 'input': inp}
+            if not asn4 and any(a >= 65536 for _, asns in segs for a in asns):
+                got4 = read(attrs.get(17, b''), 4)
+                if got4 != [(t, list(asns)) for t, asns in segs]:
+                    return {'what': f'4-byte AS numbers sent to a 2-byte peer as AS_TRANS, and AS4_PATH carries {got4} instead of the path as written {segs} (RFC 6793 4.2.2): the numbers are lost', 'input': inp}
         elif checker is not None and not checker(attrs):
             return {'what': f'the value sent on a {kind} session is not the value written', 'input': inp, 'sent_attributes': {str(k): v.hex() for k, v in attrs.items()}}
     return None
@@ -421,7 +455,35 @@ def outcome(api, text):
     return None, ('done', tuple(sorted(r.extensive() for r in routes))), routes
 
 
+DIRECT = {'route': 'api_route', 'flow': 'api_flow', 'vpls': 'api_vpls', 'ipv4': 'api_announce_v4', 'ipv6': 'api_announce_v6'}
+
+
+def direct_entry(text):
+    """the entry points the property names (API.api_route / api_flow / api_vpls, Configuration.parse_route_text) called
+    directly: refusal is an empty list with configuration.error set, never an exception (the handlers above only look
+    clean because the scheduler's error handler answers for whatever escapes)"""
+    from exabgp.reactor.api import API
+
+    kind = text.split()[1]
+    body = text.split(' ', 1)[1]
+    name = DIRECT.get(kind)
+    if name is None:
+        return None
+    calls = [(f'API.{name}', lambda: getattr(API(None), name)(body, 'announce'))]
+    if kind == 'route':
+        calls.append(('Configuration.parse_route_text', lambda: API(None).configuration.parse_route_text(body, 'announce')))
+    for label, fn in calls:
+        try:
+            fn()
+        except Exception as e:  # noqa
+            return {'what': f'{label} answered the text with an unhandled {type(e).__name__}: {str(e)[:120]} (must be refused with an error message or accepted)', 'input': {'text': text}}
+    return None
+
+
 def api_case(text, must, checker, api=None):
+    f0 = direct_entry(text)
+    if f0:
+        return f0
     res = outcome(api or api_object(), text)
     fail, summ = res[0], res[1]
     if fail:
